@@ -17,7 +17,8 @@
 //!     tD  like tN, and while the handshake is parked the channel is disabled; once Disabled is announced (or after
 //!         600 ms) the peer closes and the channel is enabled again
 //!     tS  like tN, and while the handshake is parked the channel is shut down; the scenario ends here
-//!   after the script: the wait announced after the last attempt is observed, then Channel::shutdown().
+//!   a script without tS is continued with one: the attempt after the last wait meets a silent peer and the channel is
+//!   shut down while that handshake is pending.
 //! output line:  <listener path>|<request results>|<end>
 //!   listener path: lD lC lN lF<ns> lW<ns> lS (Disabled Connecting Connected WaitAfterFailedConnect
 //!     WaitAfterDisconnect Shutdown), ' '-separated, everything the listener was told, in order
@@ -122,6 +123,11 @@ async fn scenario(line: String, ip: Ipv4Addr) -> String {
         } else {
             items.push(c.to_string());
         }
+    }
+    // every scenario ends with a shutdown while a handshake is pending: the end of the path does not depend on
+    // whether a refused connect or the queued shutdown is noticed first
+    if !items.iter().any(|i| i == "tS") {
+        items.push("tS".to_string());
     }
     let port = std::net::TcpListener::bind((ip, 0)).unwrap().local_addr().unwrap().port();
     let addr = SocketAddr::from((ip, port));
